@@ -49,6 +49,8 @@ type Contract struct {
 	Cover    bool
 	NoFrame  bool
 	BVNames  []string
+	Theories []string          // axiom theories assumed in this function's obligations
+	Returns  map[string]string // result name -> parameter name whose pointer is returned
 	IntNames []string // variables of a bit-vector type that are nevertheless kept as integers (counters, indices)
 	Lets     []LetClause
 	Uses     []Clause
@@ -101,6 +103,7 @@ type Lemma struct {
 	Axiom    bool // assumed, listed in the trusted base
 	Induct   string
 	Uses     []Clause
+	Theory   string // axioms: the theory they belong to (added to functions that declare `theory <name>`)
 }
 
 type Universe struct {
@@ -215,7 +218,7 @@ func (u *Universe) loadDeps(dir string) error {
 
 var clauseWords = map[string]bool{"requires": true, "ensures": true, "modifies": true, "panics": true,
 	"loop": true, "repr": true, "inline": true, "props": true, "opaque": true, "unroll": true, "note": true, "induct": true, "cover": true,
-	"bv": true, "intvar": true, "let": true, "use": true, "noframe": true, "specialize": true}
+	"bv": true, "intvar": true, "theory": true, "returns": true, "let": true, "use": true, "noframe": true, "specialize": true}
 
 func (u *Universe) parseContractFile(path, pkgPath string, deps bool) error {
 	data, err := os.ReadFile(path)
@@ -333,6 +336,13 @@ func (u *Universe) parseContractFile(path, pkgPath string, deps bool) error {
 			}
 			curC, curL = nil, nil
 			pkgPath = rest
+			continue
+		case "abstract":
+			f := strings.Fields(rest)
+			if len(f) != 2 {
+				return fmt.Errorf("%s: abstract <pkgpath.Type> <Sort>", where)
+			}
+			abstractTypes[f[0]] = f[1]
 			continue
 		case "sameas":
 			// the functions of this dependency package that are textually identical to the named
@@ -546,6 +556,24 @@ func (u *Universe) parseContractFile(path, pkgPath string, deps bool) error {
 			lastClause = nil
 		case "intvar":
 			curC.IntNames = append(curC.IntNames, strings.Fields(rest)...)
+			lastClause = nil
+		case "theory":
+			if curC != nil {
+				curC.Theories = append(curC.Theories, strings.Fields(rest)...)
+			} else {
+				curL.Theory = rest
+			}
+			lastClause = nil
+		case "returns":
+			// returns R P: result R is the pointer argument P (e.g. methods returning their receiver)
+			f := strings.Fields(rest)
+			if len(f) != 2 || curC == nil {
+				return fmt.Errorf("%s: returns <result> <parameter>", where)
+			}
+			if curC.Returns == nil {
+				curC.Returns = map[string]string{}
+			}
+			curC.Returns[f[0]] = f[1]
 			lastClause = nil
 		case "use":
 			s := rest
